@@ -38,6 +38,12 @@ theorem composite_named (s : SchemaD) (n : String) (h : isComposite s n = true) 
   rw [compositeBase_outOnly, ht]
   simp [compositeBase, Ty.base, h]
 
+theorem ovFieldOf_nonMeta (s : SchemaD) (p name : String) (h : name ∉ metaFieldNames) :
+    ovFieldOf s p name = fieldOf s p name := by
+  simp only [metaFieldNames, List.mem_cons, List.not_mem_nil, or_false, not_or] at h
+  unfold ovFieldOf
+  simp [h.2.2]
+
 theorem getFieldDef_nonMeta (s : SchemaD) (p name : String) (h : name ∉ metaFieldNames) :
     getFieldDef s p name = fieldOf s p name := by
   simp only [metaFieldNames, List.mem_cons, List.not_mem_nil, or_false, not_or] at h
@@ -72,7 +78,12 @@ theorem coll_walk {p : Option String} {sels : List Sel} {rn : String} {e : FEntr
       | none => rfl
       | some q => simp only [Option.bind_some]; exact getFieldDef_nonMeta s q name hnmeta
     rw [hfd]
-    show _ = ((parent.bind fun q => fieldOf s q name).map (·.type)).map (·.base)
+    have hov : (parent.bind fun q => ovFieldOf s q name) = parent.bind fun q => fieldOf s q name := by
+      cases parent with
+      | none => rfl
+      | some q => simp only [Option.bind_some]; exact ovFieldOf_nonMeta s q name hnmeta
+    show _ = ((parent.bind fun q => ovFieldOf s q name).map (·.type)).map (·.base)
+    rw [hov]
     cases hf : (parent.bind fun q => fieldOf s q name) with
     | none => rfl
     | some f =>
